@@ -1080,7 +1080,9 @@ func genSwapNode(r *hx.Rng, o *hx.Out) {
 	runSwapNode(o, ens, removed, from, to)
 }
 
-func genRound(r *hx.Rng, o *hx.Out) {
+func genRound(r *hx.Rng, o *hx.Out) { runRound(o, mkRoundCase(r)) }
+
+func mkRoundCase(r *hx.Rng) *roundCase {
 	nodes, md, labels := genCluster(r, 2, 7)
 	// servers that were removed from the configuration but still hold replicas
 	var gone []int
@@ -1123,7 +1125,7 @@ func genRound(r *hx.Rng, o *hx.Out) {
 			id++
 		}
 	}
-	runRound(o, rc)
+	return rc
 }
 
 func replayLine(o *hx.Out, line string) {
@@ -1149,6 +1151,8 @@ func replayLine(o *hx.Out, line string) {
 		from, _ := strconv.Atoi(a[2])
 		to, _ := strconv.Atoi(a[3])
 		runSwapNode(o, parseInts(a[0], ","), parseInts(a[1], ","), from, to)
+	case "pipe": // nodes md idx shards rounds slow: balancer rounds against a slow action worker (pipeleg.go)
+		replayPipe(o, a)
 	case "place": // nodes md rules rf: through the real coordinator (coordleg.go)
 		replayPlace(o, a)
 	case "round": // nodes md rank idx shards reqs  (rank and reqs are re-observed)
@@ -1185,4 +1189,5 @@ func main() {
 	}
 	// the coordinator-glue leg has its own stream, so that the cases above do not depend on it
 	genCoordLeg(hx.NewRng(f.Seed+0x5eed19).Fork(), o, f.N/25+6)
+	genPipeLeg(hx.NewRng(f.Seed+0x91be19).Fork(), o, f.N/12+12)
 }
